@@ -146,8 +146,8 @@ def r4(R, repo):
       _kw_forward(R, f, call, ('length', 'reverse', 'unroll'), key, 'every lax.scan call of %s must pass length, reverse and unroll unchanged' % q)
   tf, tt = ax.func('scan.transpose_from_front'), ax.func('scan.transpose_to_front')
   for g in (tf, tt):
-    t = astu.src(g.node)
-    ok = 'if ax is broadcast:\n        return ()' in t and 'if ax == 0:\n        return xs' in t and 'return jax.tree_util.tree_map(trans, xs)' in t
+    ifs_ = {astu.src(n_.test): [astu.src(s_) for s_ in n_.body if isinstance(s_, ast.Return)] for n_ in astu.body_walk(g.node) if isinstance(n_, ast.If)}
+    ok = ifs_.get('ax is broadcast') == ['return ()'] and ifs_.get('ax == 0') == ['return %s' % astu.params(g.node)[1]] and any(isinstance(n_, ast.Return) and astu.src(n_) == 'return jax.tree_util.tree_map(trans, %s)' % astu.params(g.node)[1] for n_ in astu.body_walk(g.node))
     R.check(ok, key_of(g, 'broadcast -> (), axis 0 -> unchanged, else per-leaf transpose'), g, '%s must return () for broadcast axes, the input for axis 0 and otherwise tree_map(trans, xs)' % g.name)
   tr = ax.func('scan.transpose_from_front.trans')
   xp = astu.params(tr.node)[0]
